@@ -561,12 +561,78 @@ func specPathArrayOK(style PathStyle, explode bool, param string, s string) bool
 //@   ensures items:  vCbOK(f) && err == nil ==> vSeqEq(vCbLog(f, "vals"), vCat(old(vCbLog(f, "vals")), specPathArrayItems(d.style, d.explode, d.param, old(d.cur.src)[old(d.cur.pos):])))
 //@   ensures cbfail: old(vCbOK(f)) && !vCbOK(f) ==> err != nil
 //@   uses indexBRange
+//@   fuel 3
+//@   loop 0 modifies d.cur.pos
 //@   loop 0 invariant wf:    d.cur == old(d.cur) && d.cur.src == old(d.cur.src) && 0 <= d.cur.pos && d.cur.pos <= len(d.cur.src)
 //@   loop 0 invariant mono:  vCbOK(f) == old(vCbOK(f))
 //@   loop 0 invariant head:  old(d.cur.pos) < len(d.cur.src) && d.cur.src[old(d.cur.pos)] == ';'
 //@   loop 0 invariant acc:   vCbOK(f) ==> vSeqEq(vCat(vCbLog(f, "vals"), mxItems(d.cur.src[d.cur.pos:], d.param)), vCat(old(vCbLog(f, "vals")), mxItems(old(d.cur.src)[old(d.cur.pos)+1:], d.param)))
 //@   loop 0 invariant ok:    vCbOK(f) ==> okMx(d.cur.src[d.cur.pos:], d.param) == okMx(old(d.cur.src)[old(d.cur.pos)+1:], d.param)
 //@   loop 0 decreases len(d.cur.src) - d.cur.pos
+
+// ---- path parameter objects -------------------------------------------------------------
+
+// objKV / objFS: key-value and field separators of the style table's object column.
+func objKV(style PathStyle, explode bool) byte {
+	if explode {
+		return '='
+	}
+	return ','
+}
+
+func objFS(style PathStyle, explode bool) byte {
+	if explode && style == PathStyleLabel {
+		return '.'
+	}
+	if explode && style == PathStyleMatrix {
+		return ';'
+	}
+	return ','
+}
+
+// objBody: the part of the serialization s that holds the name/value pairs, per style (after the
+// label dot, the matrix ";" or ";name="); objHead: whether that prefix is present.
+func objHead(style PathStyle, explode bool, param string, s string) bool {
+	switch style {
+	case PathStyleLabel:
+		return len(s) > 0 && s[0] == '.'
+	case PathStyleMatrix:
+		if len(s) == 0 || s[0] != ';' {
+			return false
+		}
+		return explode || indexB(s[1:], '=') >= 0 && s[1:][:indexB(s[1:], '=')] == param
+	}
+	return true
+}
+
+func objBody(style PathStyle, explode bool, param string, s string) string {
+	switch style {
+	case PathStyleLabel:
+		return s[1:]
+	case PathStyleMatrix:
+		if explode {
+			return s[1:]
+		}
+		return s[1:][indexB(s[1:], '=')+1:]
+	}
+	return s
+}
+
+//@ func (d *PathDecoder) DecodeFields(f func(name string, d Decoder) error) (err error)
+//@   callback f(name string, d Decoder) log names name
+//@   callback f(name string, d Decoder) log values d.(*constval).v
+//@   requires style: validPathStyle(d.style)
+//@   requires cur:   d.cur != nil && 0 <= d.cur.pos && d.cur.pos <= len(d.cur.src)
+//@   modifies d.cur.pos, cb:f
+//@   ensures head:   !objHead(d.style, d.explode, d.param, old(d.cur.src)[old(d.cur.pos):]) ==> err != nil
+//@   ensures ok:     vCbOK(f) && objHead(d.style, d.explode, d.param, old(d.cur.src)[old(d.cur.pos):]) ==>
+//@                     (err == nil) == okFields(objBody(d.style, d.explode, d.param, old(d.cur.src)[old(d.cur.pos):]), objKV(d.style, d.explode), objFS(d.style, d.explode))
+//@   ensures names:  vCbOK(f) && err == nil ==> vSeqEq(vCbLog(f, "names"), vCat(old(vCbLog(f, "names")),
+//@                     fieldNames(objBody(d.style, d.explode, d.param, old(d.cur.src)[old(d.cur.pos):]), objKV(d.style, d.explode), objFS(d.style, d.explode))))
+//@   ensures values: vCbOK(f) && err == nil ==> vSeqEq(vCbLog(f, "values"), vCat(old(vCbLog(f, "values")),
+//@                     fieldValues(objBody(d.style, d.explode, d.param, old(d.cur.src)[old(d.cur.pos):]), objKV(d.style, d.explode), objFS(d.style, d.explode))))
+//@   ensures cbfail: old(vCbOK(f)) && !vCbOK(f) ==> err != nil
+//@   uses indexBRange
 
 func validPathStyle(s PathStyle) bool {
 	return s == PathStyleSimple || s == PathStyleLabel || s == PathStyleMatrix
